@@ -11,7 +11,17 @@ use std::alloc::Layout;
 use std::panic::{catch_unwind, AssertUnwindSafe};
 
 fn ctor_case<const M: usize>(rep: &mut Report, valid: bool) {
-    let cases: [(&str, Box<dyn Fn() -> bool>); 7] = [
+    let cases: [(&str, Box<dyn Fn() -> bool>); 9] = [
+        ("Default::default", Box::new(|| { let _b: Bump<M> = Default::default(); true })),
+        ("derived Default of a holder", Box::new(|| {
+            #[derive(Default)]
+            struct Holder<const N: usize> {
+                _a: Bump<N>,
+                _n: u32,
+            }
+            let _h: Holder<M> = Default::default();
+            true
+        })),
         ("with_min_align_and_capacity(1<<20)", Box::new(|| { let _b = Bump::<M>::with_min_align_and_capacity(1 << 20); true })),
         ("try_with_min_align_and_capacity(1<<20)", Box::new(|| Bump::<M>::try_with_min_align_and_capacity(1 << 20).is_ok())),
         ("with_min_align", Box::new(|| { let _b = Bump::<M>::with_min_align(); true })),
@@ -117,7 +127,7 @@ pub fn run_ctor_table(_args: &Args, rep: &mut Report) {
     ctor_case::<64>(rep, false);
     ctor_case::<4096>(rep, false);
     let mut j = J::obj();
-    j.set("table", J::s("MIN_ALIGN in {0,1,2,3,4,5,8,12,16,24,32,64,4096} x 5 constructors; valid M: 13 alignments x 3 sizes x fallible/infallible first request on a chunk-less arena"));
+    j.set("table", J::s("MIN_ALIGN in {0,1,2,3,4,5,8,12,16,24,32,64,4096} x 9 constructors (with_min_align, 4 capacity forms, 2 at 1 MiB, Default::default, a derived Default holder); valid M: 13 alignments x 3 sizes x fallible/infallible first request on a chunk-less arena"));
     rep.sample(j);
 }
 
@@ -136,8 +146,13 @@ fn limit_twin_m<const M: usize>(args: &Args, rep: &mut Report) {
         for mode in [2u8, 1u8] {
             let env = Env { skew: 3, junk: !cfg!(miri), scribble: !cfg!(miri), quarantine: false, cap: 64 << 20 };
             env.apply(hseed);
+            // the same refusal threshold for both twins (half of the histories): a limit-free arena must
+            // treat a refusing allocator exactly like one whose limit is None / usize::MAX
+            let thresholds = [usize::MAX, usize::MAX, 100, 256, 400, 495, 496, 1008, 2032, 5000];
+            let t = thresholds[(hseed >> 33) as usize % thresholds.len()];
+            halloc::set_refuse(if t == usize::MAX { halloc::Refuse::None } else { halloc::Refuse::Above(t) });
             crate::ledger::reset();
-            rep.ctx = format!("limit-twin history {} mode {} (seed {} shard {} M {})", it, mode, args.seed, args.shard, M);
+            rep.ctx = format!("limit-twin history {} mode {} refuse-above {} (seed {} shard {} M {})", it, mode, t, args.seed, args.shard, M);
             let mut s = match Sim::<M>::new(hseed, rep, None, false) {
                 Some(s) => s,
                 None => continue,
@@ -148,6 +163,7 @@ fn limit_twin_m<const M: usize>(args: &Args, rep: &mut Report) {
                 gen::step(&mut s, rep, &profile);
             }
             s.drop_arena(rep);
+            halloc::set_refuse(halloc::Refuse::None);
             traces.push((std::mem::take(&mut s.trace), std::mem::take(&mut s.oplog)));
         }
         rep.evaluations += 1;
